@@ -22,7 +22,9 @@ RULE = ("Part A case = (reference-model/limit/configuration spec, decision list)
         "the k-th multi-option choice point of the tuner interface takes option "
         "decisions[k] % arity. Fixed small specs are enumerated exhaustively "
         "(product of recorded arities, leaves sharded over workers); other specs "
-        "and decisions are drawn by Hypothesis. Non-trivial trial = the trial "
+        "and decisions are drawn by Hypothesis. The layer selection is None or a "
+        "container (list/tuple/range/set/frozenset) of 0..n layer ids; the hyper-model "
+        "is built directly or by the AutoQKeras wrapper (stub tuner). Non-trivial trial = the trial "
         "model was built, at least one layer is quantized and at least one "
         "choice point had >= 2 options; distinct by hash of (spec, effective "
         "decisions). Part B cases = forgiving-factor parameter tuples and "
@@ -44,6 +46,14 @@ ASSUMPTIONS = [
     "quantized in this image); 'default' is absent, a number, or a 3/4-entry list (the constructor "
     "asserts 3 <= len <= 4); regular-expression keys are always written in full (only class keys "
     "are completed from 'default')",
+    "layer_indexes is None or a container of layer ids (list, tuple, range, set or frozenset; lists and "
+    "tuples possibly unsorted) of ANY size 0..number of layers: an empty container selects nothing (every "
+    "trial is the unquantized reference), [0] selects only the InputLayer; 'layer i is selected' is judged "
+    "by `i in container`, the only reading the documentation ('we only quantize layers whose ids are in "
+    "layer_indexes') allows",
+    "route: the hyper-model is constructed directly (AutoQKHyperModel(...)) or, for about 1 in 4 sampled specs "
+    "and two fixed specs, by the public wrapper AutoQKeras(..., custom_tuner=stub) whose .hypermodel is then "
+    "driven the same way (the stub tuner only stores its arguments: no search, no files)",
     "an exception of quantize_model for a generated (documented-valid) input is reported as sub_check "
     "quantize_raises: the property quantifies over assignments that must yield a trial model",
     "forgiving factor: rate and deltas are exactly representable in float32, sizes are integers "
@@ -56,12 +66,16 @@ ASSUMPTIONS = [
 BUDGET_S = {"quick": 100, "thorough": 840}
 REQUIRED_LABELS = {
     "quick": ["dfs", "hyp", "trial_built", "pattern_group", "list_limit",
-              "layer_indexes", "outside_limit_layer", "outside_index_layer",
+              "layer_indexes", "layer_indexes_empty", "layer_indexes_single",
+              "layer_indexes_all", "layer_indexes_subset", "route:autoqkeras",
+              "outside_limit_layer", "outside_index_layer",
               "filters_scaled", "tight_limit", "act_layer_quantized",
               "raised_unsatisfiable_limit",
               "ff_delta", "ff_size", "ff_size_quantized"],
     "thorough": ["dfs", "hyp", "trial_built", "pattern_group", "list_limit",
-                 "layer_indexes", "outside_limit_layer", "outside_index_layer",
+                 "layer_indexes", "layer_indexes_empty", "layer_indexes_single",
+                 "layer_indexes_all", "layer_indexes_subset", "route:autoqkeras",
+                 "outside_limit_layer", "outside_index_layer",
                  "filters_scaled", "tight_limit", "act_layer_quantized", "rnn",
                  "raised_unsatisfiable_limit", "ff_delta", "ff_size", "ff_size_quantized"],
 }
@@ -183,14 +197,32 @@ class Harness(object):
     self.ref_shapes = [l.output_shape for l in self.model.layers]
     target = ForgivingFactorBits(8.0, 8.0, 2.0, config={
         "default": ["parameters", "activations"]})
+    try:
+      self.layer_indexes = G.layer_indexes_value(spec)
+    except ValueError as e:
+      raise core.HarnessError("bad spec: %s" % e)
+    self.route = spec.get("route", "hypermodel")
+    kw = dict(limit=G.limit_dict(spec),
+              tune_filters=spec["tune_filters"],
+              tune_filters_exceptions=spec["tune_exc"],
+              layer_indexes=self.layer_indexes,
+              activation_bits=spec["activation_bits"],
+              quantization_config=G.qconfig_dict(spec))
     with contextlib.redirect_stdout(io.StringIO()):
-      self.hm = AutoQKHyperModel(
-          self.model, ["acc"], target=target, limit=G.limit_dict(spec),
-          tune_filters=spec["tune_filters"],
-          tune_filters_exceptions=spec["tune_exc"],
-          layer_indexes=spec["layer_indexes"],
-          activation_bits=spec["activation_bits"],
-          quantization_config=G.qconfig_dict(spec))
+      if self.route == "hypermodel":
+        self.hm = AutoQKHyperModel(self.model, ["acc"], target=target, **kw)
+      elif self.route == "autoqkeras":
+        # the public wrapper builds the hyper-model itself; the documented
+        # custom_tuner hook receives it (no tuner run, nothing written)
+        from qkeras.autoqkeras.autoqkeras_internal import AutoQKeras  # pylint: disable=g-import-not-at-top
+        aq = AutoQKeras(self.model, metrics=["acc"], goal=target,
+                        output_dir="/nonexistent/c20_autoqkeras_unused",
+                        custom_tuner=G.StubTuner, **kw)
+        self.hm = aq.hypermodel
+        if aq.tuner.hypermodel is not self.hm:
+          raise core.HarnessError("stub tuner did not receive the hyper-model")
+      else:
+        raise core.HarnessError("unknown route %r" % (self.route,))
     self.keys, self.limit = R.adjusted_limit(spec["limit"])
     self.qc = R.qconfig_pairs(spec)
     self._twins = {}
@@ -260,7 +292,7 @@ def check_trial(h, decisions, origin):
   sel = spec["layer_indexes"]
   tune = spec["tune_filters"]
   fails = []
-  labels = [origin, "tune:" + tune,
+  labels = [origin, "tune:" + tune, "route:" + h.route,
             "qconfig:" + ("default" if spec.get("qconfig") == "default" else "custom")]
 
   info = []
@@ -270,6 +302,12 @@ def check_trial(h, decisions, origin):
                  "selected": sel is None or i in sel})
   if sel is not None:
     labels.append("layer_indexes")
+    labels.append("li_form:" + spec.get("li_form", "list"))
+    nsel = len(set(sel))
+    labels.append("layer_indexes_empty" if nsel == 0 else
+                  "layer_indexes_single" if nsel == 1 else
+                  "layer_indexes_all" if nsel == len(layers) else
+                  "layer_indexes_subset")
 
   # ---- expected filter scaling -------------------------------------------
   chosen = dict((n, v[k]) for n, v, k in hp.rec)
